@@ -200,6 +200,16 @@ def check(case, ctx):
         fails.append(Fail("T-start-value", feats, {"start": q0[dA.index[("T", 0)]], "guess": case["guess_T"]}))
     if free in ("t0", "both") and not close(q0[dA.index[("t0", 0)]], case["guess_t0"], 1e-12, 1e-12):
         fails.append(Fail("t0-start-value", feats, {"start": q0[dA.index[("t0", 0)]], "guess": case["guess_t0"]}))
+    if not fails and free in ("T", "both"):
+        # the horizon declared free once more, with another guess, after the problem has been transcribed: the start value follows
+        from rockit import FreeTime
+        g2 = case["guess_T"] + 0.75
+        BA.ocp.set_T(FreeTime(g2))
+        n2 = NLP(BA.ocp)
+        n2.add("vT", BA.ocp.value(BA.ocp.T))
+        T2 = float(n2.eval(n2.x0)["vT"].reshape(-1)[0])
+        if not close(T2, g2, 1e-12, 1e-12):
+            fails.append(Fail("T-start-value", dict(feats, redeclared_after_transcription=True), {"start": T2, "guess": g2, "previous_guess": case["guess_T"]}))
     return fails
 
 
